@@ -63,7 +63,8 @@ reg('C06', 'exploration',
 reg('C07', 'exploration',
     'Exhaustive over the finite configuration space: all (unit system, unit type) pairs (148) - SI magnitude of the consistent unit, '
     'from its symbol (exact rational arithmetic) and as measured by the real Convert in long double, equals the product of the '
-    'system\'s base units raised to the declared exponents - and all 514 reverse lookups.',
+    'system\'s base units raised to the declared exponents - all 514 reverse lookups, and ALL call histories of length 3 (N^3 per unit type) of '
+    'RelatedUnitSystem, ConsistentUnit, Abbreviation, ParseEnumeration and Convert on the real code (a lookup must be a function of its argument only).',
     TB + 'Symbol oracle atom table; the reading of unit-system enumerator names (Metre/Millimetre/Foot/Inch, Kilogram/Gram/Pound(-force), Second, Kelvin/Rankine).',
     'exhaustive enumeration of the finite configuration space against exact rational oracle', 'DESIGN.md section 7 C07', thorough=False)
 reg('C08', 'exploration',
@@ -71,7 +72,9 @@ reg('C08', 'exploration',
     'by the real code in a forked child so a missing row is an observed crash), every accepted spelling (all keys of the spelling '
     'tables, 2048 today) expanded by the independent symbol oracle and compared with the magnitude of the enumerator it parses to, and '
     'a bounded negative space on the real parser: every string within edit distance 1 of any accepted spelling plus all strings up to '
-    'length 2 (quick) / 3 (thorough) over the bytes in use, accepted iff byte-identical to a table key (linear scan oracle).',
+    'length 2 (quick) / 3 (thorough) over the bytes in use, accepted iff byte-identical to a table key (linear scan oracle); every string is '
+    'parsed from one reused, non-terminated buffer directly after an accepted spelling of the same length (two-step histories); each '
+    'enumerator converts to and from the standard unit by the magnitude its abbreviation denotes.',
     TB + 'Symbol oracle atom table; "accepted spelling" is defined as the key set of the library\'s spelling table (iterated, not looked up).',
     'exhaustive table enumeration + bounded exhaustive negative-space strings against independent oracle', 'DESIGN.md section 7 C08')
 
